@@ -4,5 +4,5 @@ Import ListNotations.
 
 Theorem C34_complex_true_sound_guarded : forall rho st A, assum_of st = Ok A -> osat rho st ->
   forall e v, is_complex A e = QT TT -> denote rho e = Some v -> v <> VZoo -> v_complex v.
-Proof. exact complex_true_final_guarded. Qed.
+Proof. intros rho st A _ _. exact (complex_true_final_guarded rho A). Qed.
 Print Assumptions C34_complex_true_sound_guarded.
